@@ -86,7 +86,7 @@ Section Auto.
   Variable minpos : num.
 
   Theorem auto_is_explicit c s nf :
-    try_as_spdc o U K minpos c = Ok (s, nf) ->
+    try_as_spdc_steps o U K minpos c = Ok (s, nf) ->
     (* crystal: the configuration's crystal, with angle 0 while the angle is still to be computed *)
     (cc_theta_deg (c_crystal c) = Auto ->
        optimum_theta o K (cfg_cs0 o c) (s_signal s) (s_pump s) = Ok (cs_theta (s_crystal s)) /\
@@ -112,7 +112,7 @@ Section Auto.
     (forall f, bc_waist_pos_um (c_signal c) = Param f -> s_zs s = explicit_focus o f) /\
     (forall f, idler_focus_cfg c = Param f -> s_zi s = explicit_focus o f).
   Proof.
-    unfold Config.try_as_spdc.
+    unfold Config.try_as_spdc_steps.
     destruct (signal_step o K c) as [signal | |] eqn:Hs; cbn [bind]; try discriminate.
     destruct (poling_step o K minpos c signal) as [[pp nfp] | |] eqn:Hp; cbn [bind fst snd]; try discriminate.
     destruct (theta_step o K c signal pp) as [cs | |] eqn:Ht; cbn [bind]; try discriminate.
